@@ -611,39 +611,38 @@ fn merge_so_instance_type(
     a: Option<&SingleOrVec<InstanceType>>,
     b: Option<&SingleOrVec<InstanceType>>,
 ) -> Result<Option<SingleOrVec<InstanceType>>, ()> {
+    // The instance type admitted by both of two instance types: the type
+    // itself if they are equal, and `integer` for `integer` and `number`
+    // (every integer is a number).
+    fn meet(a: &InstanceType, b: &InstanceType) -> Option<InstanceType> {
+        match (a, b) {
+            _ if a == b => Some(*a),
+            (InstanceType::Integer, InstanceType::Number)
+            | (InstanceType::Number, InstanceType::Integer) => Some(InstanceType::Integer),
+            _ => None,
+        }
+    }
+
+    fn types(t: &SingleOrVec<InstanceType>) -> Vec<&InstanceType> {
+        match t {
+            SingleOrVec::Single(it) => vec![it.as_ref()],
+            SingleOrVec::Vec(types) => types.iter().collect(),
+        }
+    }
+
     match (a, b) {
         (None, None) => Ok(None),
         (None, other @ Some(_)) | (other @ Some(_), None) => Ok(other.cloned()),
 
-        // If each has a single type, it must match.
-        (Some(SingleOrVec::Single(aa)), Some(SingleOrVec::Single(bb))) => {
-            if aa == bb {
-                Ok(Some(SingleOrVec::Single(aa.clone())))
-            } else {
-                Err(())
-            }
-        }
-
-        // If one has a single type and the other is an array, the type must
-        // appear in the array (and that's the resulting type).
-        (Some(SingleOrVec::Vec(types)), Some(SingleOrVec::Single(it)))
-        | (Some(SingleOrVec::Single(it)), Some(SingleOrVec::Vec(types))) => {
-            if types.contains(it) {
-                Ok(Some(SingleOrVec::Single(it.clone())))
-            } else {
-                Err(())
-            }
-        }
-
-        // If both are arrays, we take the intersection; if the intersection is
-        // empty, we return an error.
-        (Some(SingleOrVec::Vec(aa)), Some(SingleOrVec::Vec(bb))) => {
-            let types = aa
-                .iter()
+        // The result is made of the types admitted by a type of each; if
+        // there is none, we return an error.
+        (Some(aa), Some(bb)) => {
+            let bb = types(bb);
+            let types = types(aa)
+                .into_iter()
+                .flat_map(|a_type| bb.iter().filter_map(move |b_type| meet(a_type, b_type)))
                 .collect::<BTreeSet<_>>()
-                .intersection(&bb.iter().collect::<BTreeSet<_>>())
-                .cloned()
-                .cloned()
+                .into_iter()
                 .collect::<Vec<_>>();
 
             match types.len() {
